@@ -3,6 +3,7 @@
 //!   en <dec>        Nat::encode           -> hex
 //!   ei <dec>        Int::encode           -> hex
 //!   rd <hexmsg> <defs> <type>   decode the message at ONE expected type under the given definitions -> ok | err
+//!   rt <kind> <value>  native Encode!/Decode! round trip of one scalar -> "ok <message hex> <value read back>"
 //!   st <scenario>   subtype memo scenario (see subtype_case) -> per query "<shared><fresh>"
 //!   dn <hex>        Nat::decode           -> "ok <dec> <consumed>" | "err"
 //!   di <hex>        Int::decode           -> "ok <dec> <consumed>" | "err"
@@ -150,6 +151,7 @@ fn main() {
             }
             // history corpus: "h <perm>" encodes + decodes values of 5 (mutually) recursive / generic derived types in the
             // given order on ONE fresh thread and prints each message; "dv" prints derived field orders
+            "rt" => roundtrip_case(&p[1], &p[2]),
             "st" => subtype_case(&p[1]),
             "rd" => refdecode_case(&p[1], &p[2], &p[3]),
             "h" => history_case(&p[1]),
@@ -378,5 +380,31 @@ fn refdecode_case(hexmsg: &str, defs: &str, ty: &str) -> String {
     match candid::IDLArgs::from_bytes_with_types(&bytes, &env, &[t]) {
         Ok(_) => "ok".to_string(),
         Err(_) => "err".to_string(),
+    }
+}
+
+// ---------------------------------------------------------------- native round trip of one scalar (floats by bit pattern)
+fn roundtrip_case(kind: &str, val: &str) -> String {
+    use candid::{Decode, Encode};
+    macro_rules! rt {
+        ($v:expr, $t:ty, $show:expr) => {{
+            let v: $t = $v;
+            let bytes = match Encode!(&v) { Ok(b) => b, Err(e) => return format!("ERR encode {e}") };
+            match Decode!(&bytes, $t) {
+                Ok(w) => format!("ok {} {}", hexe(&bytes), $show(&w)),
+                Err(e) => format!("ERR decode {} {e}", hexe(&bytes)),
+            }
+        }};
+    }
+    match kind {
+        "f32" => rt!(f32::from_bits(u32::from_str_radix(val, 16).unwrap()), f32, |w: &f32| format!("{:08x}", w.to_bits())),
+        "f64" => rt!(f64::from_bits(u64::from_str_radix(val, 16).unwrap()), f64, |w: &f64| format!("{:016x}", w.to_bits())),
+        "optf64" => rt!(Some(f64::from_bits(u64::from_str_radix(val, 16).unwrap())), Option<f64>, |w: &Option<f64>| format!("{:016x}", w.unwrap().to_bits())),
+        "nat" => rt!(Nat(val.parse::<BigUint>().unwrap()), Nat, |w: &Nat| w.0.to_string()),
+        "int" => rt!(Int(val.parse::<BigInt>().unwrap()), Int, |w: &Int| w.0.to_string()),
+        "vecnat" => rt!(vec![Nat(val.parse::<BigUint>().unwrap()), Nat(BigUint::from(7u8))], Vec<Nat>, |w: &Vec<Nat>| format!("{},{}", w[0].0, w[1].0)),
+        "u128" => rt!(val.parse::<u128>().unwrap(), u128, |w: &u128| w.to_string()),
+        "i128" => rt!(val.parse::<i128>().unwrap(), i128, |w: &i128| w.to_string()),
+        _ => "bad kind".to_string(),
     }
 }
